@@ -143,15 +143,7 @@ func init() {
 				items = append(items, specItems("C01", sp, bound, allStrats, tags, c01Oracle)...)
 			}
 			if tier == "all-probe" {
-				items = nil
-				for _, sp := range c01Programs("quick") {
-					if (len(sp.Bars) <= 1 || sp.Refresh == "none") && sp.Q != 0 && sp.Q != 1 {
-						its := specItems("C01", sp, 0, []int{mcrt.StratFIFO}, nil, c01Oracle)
-						its[0].All, its[0].Ticks = true, 1
-						its[0].Name += "/all"
-						items = append(items, its[0])
-					}
-				}
+				return allItems("C01", c01Oracle)
 			}
 			return items
 		},
